@@ -595,6 +595,9 @@ func c07Run(f []string) []string {
 	op := f[0]
 	ctx := context.Background()
 	if op == "C07.reset" {
+		if time.Now().Year() > 2250 {
+			panic("fake clock of the synctest bubble is nearly exhausted (int64 ns): too many/too long blocks")
+		}
 		c07Drop()
 		c := &c07Ctx{dir: c07TempDir(), base: time.Now(), full: vutil.UnB(f[1]),
 			idByTs: map[int64]int{}, want: map[int]string{}, exp: map[int]map[string]string{}}
@@ -831,7 +834,7 @@ func (g *c07Gen) add() {
 	case k < 19:
 		dt = 1 + r.Int64N(3_000_000_000)
 	default:
-		dt = 1 + r.Int64N(7200_000_000_000)
+		dt = 1 + r.Int64N(3600_000_000_000)
 	}
 	g.clock += dt
 	host := vutil.Pick(r, g.hosts)
@@ -1030,7 +1033,7 @@ func (g *c07Gen) block() {
 	g.memSize = vutil.Pick(r, []int{0, 1, 2, 3, 3, 4, 5, 5, 8, 8, 12, 100})
 	g.fileOn = r.IntN(8) != 0
 	enabled := r.IntN(12) != 0
-	ivlMs := vutil.Pick(r, []int{3600_000, 6 * 3600_000, 24 * 3600_000, 7 * 24 * 3600_000})
+	ivlMs := vutil.Pick(r, []int{3600_000, 3600_000, 2 * 3600_000, 6 * 3600_000, 24 * 3600_000})
 	f := []string{"1", strconv.Itoa(g.memSize), vutil.B(g.fileOn), vutil.B(enabled), strconv.Itoa(ivlMs)}
 	f = append(f, g.ignoredFields(g.rules())...)
 	f = append(f, g.clientFields()...)
@@ -1048,7 +1051,14 @@ func (g *c07Gen) block() {
 		case k < 76:
 			var dt int64
 			if r.IntN(2) == 0 {
-				dt = 1 + r.Int64N(int64(ivlMs)*1_000_000*2)
+				// around the rotation interval; capped so that the fake clock of
+				// the bubble (int64 ns, starts in 2000) is not exhausted by
+				// tens of thousands of blocks
+				span := int64(ivlMs) * 1_000_000 * 2
+				if span > 12*3600_000_000_000 {
+					span = 12 * 3600_000_000_000
+				}
+				dt = 1 + r.Int64N(span)
 			} else {
 				dt = 1 + r.Int64N(1_000_000_000)
 			}
